@@ -209,9 +209,10 @@ inductive Obs where
   | err (cls : String)
   deriving Repr, Inhabited
 
+/-- the property mentions no exception class: a run that raises is compared as "raises" -/
 def Obs.beq : Obs → Obs → Bool
   | .ok a, .ok b => veq a b
-  | .err a, .err b => a == b
+  | .err _, .err _ => true
   | _, _ => false
 
 instance : BEq Obs := ⟨Obs.beq⟩
